@@ -262,8 +262,8 @@ type RenderOpts struct {
 
 func litText(s string) string { // abstract 'c' -> .y text
 	c := s[1 : len(s)-1]
-	if c == "'" {
-		return `'\''`
+	if c == "'" || c == `\` {
+		panic("the quote and backslash characters cannot be written as literals in a yaccgo grammar file")
 	}
 	return "'" + c + "'"
 }
@@ -813,4 +813,89 @@ func LoadCorpus(dir string) ([]*Case, error) {
 		res = append(res, c)
 	}
 	return res, nil
+}
+
+// GenFeature: grammars that vary the *surface* features the code generators
+// have to cope with (C16): identifier shapes, every printable ASCII literal,
+// rule lengths 0..6, tagged/untagged mixes, with/without precedence.
+// Names avoid Go/TypeScript keywords, predeclared identifiers and the
+// identifiers the templates themselves declare (a clash there is the user's
+// naming problem, as with yacc's yy prefix).
+func GenFeature(r *rand.Rand, id string) *Case {
+	c := &Case{ID: id, Family: "feature", Types: map[string]string{}}
+	letters := "abcdefghijklmnopqrstuvwxyzABCDEFGHIJKLMNOPQRSTUVWXYZ"
+	mkName := func(prefix string, i int) string {
+		n := prefix
+		switch r.Intn(5) {
+		case 0:
+			n += fmt.Sprintf("_%d", i)
+		case 1:
+			n += fmt.Sprintf("%d_%c", i, letters[r.Intn(len(letters))])
+		case 2:
+			n = "_" + n + fmt.Sprintf("%d", i)
+		case 3:
+			n += fmt.Sprintf("%c%c_%d", letters[r.Intn(len(letters))], letters[r.Intn(len(letters))], i)
+		case 4:
+			n += fmt.Sprintf("é%d", i) // a non-ASCII letter
+		}
+		return n
+	}
+	nT := 1 + r.Intn(4)
+	var ts []string
+	for i := 0; i < nT; i++ {
+		name := mkName("Tk", i)
+		c.Tokens = append(c.Tokens, Tok{Name: name})
+		ts = append(ts, name)
+	}
+	// literals: printable ASCII except ' and \ (yaccgo's lexer has no way to write them plainly)
+	nL := 1 + r.Intn(6)
+	seen := map[byte]bool{}
+	for i := 0; i < nL; i++ {
+		ch := byte(33 + r.Intn(94))
+		if ch == '\'' || ch == '\\' || seen[ch] {
+			continue
+		}
+		seen[ch] = true
+		s := "'" + string(ch) + "'"
+		ts = append(ts, s)
+		if r.Intn(3) == 0 {
+			c.Tokens = append(c.Tokens, Tok{Name: string(ch), Lit: true})
+		}
+	}
+	nN := 1 + r.Intn(4)
+	var nts []string
+	for i := 0; i < nN; i++ {
+		nts = append(nts, mkName("Nt", i))
+	}
+	c.Start = nts[0]
+	for i, nt := range nts {
+		nalt := 1 + r.Intn(3)
+		for a := 0; a < nalt; a++ {
+			n := r.Intn(7)
+			var rhs []string
+			for j := 0; j < n; j++ {
+				if r.Intn(3) != 0 || i == len(nts)-1 {
+					rhs = append(rhs, ts[r.Intn(len(ts))])
+				} else {
+					rhs = append(rhs, nts[i+1+r.Intn(len(nts)-i-1)]) // only later nonterminals: productive, no cycles
+				}
+			}
+			c.Rules = append(c.Rules, Rule{Lhs: nt, Rhs: rhs})
+		}
+	}
+	// make every nonterminal reachable-ish and used at least once is not required
+	if r.Intn(2) == 0 {
+		perm := r.Perm(len(ts))
+		nl := 1 + r.Intn(3)
+		pi := 0
+		for l := 0; l < nl && pi < len(perm); l++ {
+			pl := PrecLine{Assoc: []string{"left", "right", "nonassoc"}[r.Intn(3)]}
+			for j := 0; j < 1+r.Intn(2) && pi < len(perm); j++ {
+				pl.Syms = append(pl.Syms, ts[perm[pi]])
+				pi++
+			}
+			c.Prec = append(c.Prec, pl)
+		}
+	}
+	return c
 }
